@@ -90,6 +90,62 @@ class Out:
         self.gens = gens or []
 
 
+def _call_skip(f, dtag, where, cond):
+    """skip_defd callables take (tag, where) or (tag, where, condition term)"""
+    import inspect
+
+    try:
+        n = len(inspect.signature(f).parameters)
+    except (TypeError, ValueError):
+        n = 2
+    return f(dtag, where, cond) if n >= 3 else f(dtag, where)
+
+
+def same_function(a, b, trials=3, seed=7):
+    """Do two z3 real terms denote the same rational function of the uninterpreted constants they mention?
+    Decided by exact evaluation at random rational points (Schwartz-Zippel); used only to LOCATE a sub-term of
+    the code's result that plays a known role -- what is then claimed about it is proved by the solver."""
+    import random
+    from fractions import Fraction as Fr
+
+    rnd = random.Random(seed)
+    consts = {}
+
+    def collect(t):
+        st, seen = [t], set()
+        while st:
+            x = st.pop()
+            if x.get_id() in seen:
+                continue
+            seen.add(x.get_id())
+            if z3.is_const(x) and x.decl().kind() == z3.Z3_OP_UNINTERPRETED:
+                consts[x.get_id()] = x
+            st.extend(x.children())
+
+    collect(a)
+    collect(b)
+    for _ in range(trials):
+        sub = [(c, z3.RealVal(str(Fr(rnd.randint(1000, 9999), rnd.randint(1000, 9999))))) for c in consts.values() if z3.is_real(c)]
+        va, vb = z3.simplify(z3.substitute(a, *sub)), z3.simplify(z3.substitute(b, *sub))
+        if not (z3.is_rational_value(va) and z3.is_rational_value(vb)) or not va.eq(vb):
+            return False
+    return True
+
+
+def find_subterm(root, ref):
+    """outermost sub-term of `root` that is the same rational function as `ref` (or None)"""
+    st, seen = [root], set()
+    while st:
+        x = st.pop(0)
+        if x.get_id() in seen:
+            continue
+        seen.add(x.get_id())
+        if z3.is_real(x) and not z3.is_rational_value(x) and same_function(x, ref):
+            return x
+        st.extend(x.children())
+    return None
+
+
 def _concolic_false(runs, cname, tag):
     """-> the input values of the first concolic run at which claim `cname` is false, else None"""
     from . import concolic as _cc
@@ -189,7 +245,7 @@ def run_job(name, run, *, timeout_ms=60000, max_paths=20000, prune=True, prune_t
             inputs = out.inputs
             # 1. definedness obligations, in program order; proved ones become facts
             for di, (dtag, where, cond) in enumerate(C.defd):
-                why = out.skip_defd(dtag, where) if out.skip_defd else None
+                why = _call_skip(out.skip_defd, dtag, where, cond) if out.skip_defd else None
                 if why:
                     res["skipped_definedness"].append({"tag": dtag, "where": where, "reason": why})
                     proved.append(cond)  # not claimed: later obligations are relative to the operation being defined
@@ -231,7 +287,7 @@ def run_job(name, run, *, timeout_ms=60000, max_paths=20000, prune=True, prune_t
                                      "reason": "claim false at a concrete point run through the encoding (concolic); handed to the replay like a solver model"})
                     continue
                 r, dt, mdl = solve.check(C, cf, timeout_ms, inputs=inputs, cons=cons + proved)
-                v = {"obligation": f"{tag}/{cname}", "verdict": r, "time_s": round(dt, 3), "kind": "claim"}
+                v = {"obligation": f"{tag}/{cname}", "verdict": r, "time_s": round(dt, 3), "kind": "aux" if cname.startswith("(internal)") else "claim"}
                 if mdl is not None:
                     v["model"] = mdl
                 if second and r in ("sat", "unsat"):
